@@ -335,13 +335,69 @@ Fixpoint groups_commit (nominal : Z) (start : Z) (d : db) (gs : list group) (mx 
       end
   end.
 
+(* ---- a write hit by a scripted short write ----
+   The harness can make ONE data-file Write of channel k store only its first j bytes and
+   return an error (0 < j < bytes of the series; j = 1 + jseed mod (bytes - 1)).  idxWriter.write
+   writes the index series first and then the data series in frame order; the series before
+   the failing one are in their files, the failing one contributes j bytes, the rest nothing.
+   The request fails, so cesium.Writer closes the session: nothing of it is committed. *)
+Definition INJECTED : Z := 99.
+
+Definition write_order (g : group) (f : frame) : list (Z * list Z) :=
+  (if g_widx g then match frame_get f (g_idx g) with Some vs => [(g_idx g, vs)] | None => [] end else []) ++
+  filter (fun kv => negb (fst kv =? g_idx g) && existsb (fun wc => wc_key wc =? fst kv) (g_chs g)) f.
+
+Definition grow_tail (d : db) (k b : Z) : db :=
+  match get_chan d k with
+  | Some c => put_chan d (Chan (c_key c) (c_idx c) (c_kind c) (c_doms c) (c_tail c + b))
+  | None => d
+  end.
+
+(* None: the fault does not fire in this group *)
+Fixpoint short_write (d : db) (l : list (Z * list Z)) (k jseed : Z) : option db :=
+  match l with
+  | [] => None
+  | (k', vs) :: r =>
+      let b := match get_chan d k' with Some c => bytes_of (c_kind c) vs | None => 0 end in
+      if k' =? k then
+        if b <? 2 then None else Some (grow_tail d k (1 + jseed mod (b - 1)))
+      else short_write (grow_tail d k' b) r k jseed
+  end.
+
+Fixpoint groups_write_fault (nominal : Z) (auto : bool) (start : Z) (d : db) (gs : list group) (f : frame)
+         (k jseed : Z) : db * list group * option Z :=
+  match gs with
+  | [] => (d, [], None)
+  | g :: r =>
+      let faulted :=
+        match validate_write g f with
+        | Ok (Some n) => if n =? 0 then None else short_write d (write_order g f) k jseed
+        | _ => None
+        end in
+      match faulted with
+      | Some d' => (d', g :: r, Some INJECTED)
+      | None =>
+          match group_write d g f with
+          | Err e => (d, g :: r, Some (err_code e))
+          | Ok (d1, g1) =>
+              let '(d2, g2, ce) := if auto then group_commit nominal d1 start g1 else (d1, g1, Ok 0) in
+              match ce with
+              | Err e => (d2, g2 :: r, Some (err_code e))
+              | Ok _ =>
+                  let '(d3, r3, e3) := groups_write_fault nominal auto start d2 r f k jseed in (d3, g2 :: r3, e3)
+              end
+          end
+      end
+  end.
+
 (* ---- script operations ---- *)
 Inductive wop :=
 | WOpen (keys : list Z) (start : Z) (auto : bool)
 | WWrite (f : frame)
 | WCommit
 | WClose
-| WReopen.
+| WReopen
+| WWriteFault (f : frame) (k jseed : Z).
 
 (* result of one op: error class (0 = ok) and, for commit, the reported end *)
 Definition w_step (st : state) (o : wop) : state * (Z * Z) :=
@@ -369,6 +425,16 @@ Definition w_step (st : state) (o : wop) : state * (Z * Z) :=
       end
   | WClose => (close_writer st, (0, 0))
   | WReopen => (close_writer st, (0, 0))
+  | WWriteFault f k jseed =>
+      match s_w st with
+      | None => (st, (err_code EClosed, 0))
+      | Some w =>
+          let '(d, gs, e) := groups_write_fault (nominal_of st) (w_auto w) (w_start w) (s_db st) (w_groups w) f k jseed in
+          match e with
+          | Some c => (St (s_cap st) d None, (c, 0))
+          | None => (St (s_cap st) d (Some (W (w_start w) (w_auto w) gs)), (0, 0))
+          end
+      end
   end.
 
 Fixpoint w_run (st : state) (ops : list wop) : state * list (Z * Z) :=
